@@ -773,6 +773,25 @@ class Fn:
                         return True
         return False
 
+    def const_defs(self, const):
+        """Named constants a constant operand stands for: its own `def`, or (for a promoted
+        `&CONST`) every named constant mentioned by the promoted body."""
+        out = []
+        if const is None:
+            return out
+        if const.get("promoted") is not None:
+            pm = self.j.get("promoted", [])
+            i = const["promoted"]
+            if i < len(pm):
+                for c in pm[i]:
+                    if c.get("def"):
+                        out.append(c["def"])
+                    if c.get("fn"):
+                        out.append(c["fn"]["path"])
+        elif const.get("def"):
+            out.append(const["def"])
+        return out
+
     def upvar_names(self):
         """closure env field index -> captured variable name"""
         out = {}
